@@ -31,7 +31,7 @@ func runC12(c *Check) error {
 		return err
 	}
 	c.Bounds = append(c.Bounds,
-		"every node kind of pkg/ast/node.go (read from the current source): every child slot present or absent (full product up to 6 child slots, otherwise all-present, all-absent, each single slot absent, each single slot present), lists of length 0 (nil and empty), 1, 2")
+		"every node kind of pkg/ast/node.go (read from the current source): every child slot present or absent (full product up to 6 child slots, otherwise all-present, all-absent, each single slot absent, each single slot present), lists of length 0 (nil and empty), 1, 2; the marker children are of four different leaf kinds (Identifier, ScalarLnumber, NamePart, ScalarMagicConstant)")
 	c.Assumptions = append(c.Assumptions, stdAssumptions...)
 	c.ExploreNeeds(needs, nil)
 	K0, K1, K2, vers := 3, 2, 2, "7.4,5.6"
@@ -40,7 +40,7 @@ func runC12(c *Check) error {
 	}
 	c.Bounds = append(c.Bounds, shortBounds(K0, K1, K2, vers)...)
 	c.ExploreNeeds(shortShapes("H_C12_Parsed", K0, K1, K2, vers, 900_000), nil)
-	return nil
+	return corpusShapes(c, "H_C12_Parsed", 0, false, 6_000_000)
 }
 
 func runC15(c *Check) error {
@@ -49,7 +49,7 @@ func runC15(c *Check) error {
 		return err
 	}
 	c.Bounds = append(c.Bounds,
-		"every node kind of pkg/ast/node.go: every token and child slot present or absent (full product up to 6 such slots, otherwise all-present, all-absent, each single slot absent, each single slot present), lists of length 0..2 with separators none / len-1 / len")
+		"every node kind of pkg/ast/node.go: every token and child slot present or absent (full product up to 6 such slots, otherwise all-present, all-absent, each single slot absent, each single slot present), lists of length 0..3 with separators none / len-1 / len / only the first of two")
 	c.Assumptions = append(c.Assumptions, stdAssumptions...)
 	c.ExploreNeeds(needs, nil)
 	return nil
@@ -62,6 +62,7 @@ func runC16(c *Check) error {
 	}
 	c.Bounds = append(c.Bounds,
 		"every node kind of pkg/ast/node.go x the four WithTokens/WithPositions combinations: every child, token, value and position slot present or absent (full product up to 6 such slots, otherwise all-present, all-absent, each single slot absent, each single slot present), lists of length 0 (nil and empty), 1, 2",
+		"values and token texts: printable ASCII on every slot configuration; with invalid UTF-8, a quote/backslash/two-byte rune, a byte order mark and control characters appended on the all-present configuration; a literal that strconv.Unquote rejects or that contains a raw byte order mark is not valid Go",
 		"the dump is read back by a line-level reader for the dumper's layout (one literal per node, fields 'Key: value,'); the native replay runs the same reader")
 	c.Assumptions = append(c.Assumptions, stdAssumptions...)
 	c.ExploreNeeds(needs, nil)
